@@ -63,6 +63,7 @@ type handRec struct {
 	gbsChecked       bool
 	stacksJudged     bool
 	leftMidHand      bool
+	slowMs           int64
 	gbsFirst         *pt.TableBlindState
 	recordUnreliable bool // some call for this hand was not atomic: the harness record may lag the engine
 	phaseFrom        int64
@@ -102,6 +103,8 @@ type tableMon struct {
 	anyNotAtomicAction bool
 	lastTurnKey        string
 	turnAt             int64
+	turnStale          int64
+	lastDeadlineSeen   int64
 	turnOK             bool
 	turnOpen           bool
 	turnDesc           string
@@ -247,6 +250,7 @@ func (m *tableMon) onSnapshot(t *pt.Table, seq int64) {
 	if st.GameState != nil {
 		ev = st.GameState.Status.CurrentEvent + "/" + st.GameState.Status.Round
 	}
+	defer func() { m.lastDeadlineSeen = st.CurrentActionEndAt }()
 	c.Logf("SNAP #%d %s gc=%d %s D%d/SB%d/BB%d gpi=%v end=%d |%s", t.UpdateSerial, st.Status, st.GameCount, ev, st.CurrentDealerSeat, st.CurrentSBSeat, st.CurrentBBSeat, st.GamePlayerIndexes, st.CurrentActionEndAt, playerLine(t))
 	m.tableInvariants(t, "snapshot")
 	m.lifecycle(string(st.Status), st.GameCount, "snapshot")
@@ -517,7 +521,15 @@ func (m *tableMon) checkDealtIn(h *handRec, prev *handRec) {
 	for _, p := range st.PlayerStates {
 		elig := p.IsIn && p.Bankroll > 0
 		if dealt[p.PlayerID] && !elig {
-			c.Viol("C05", "C05.dealt_in_ineligible", map[string]any{"seated_in": p.IsIn, "has_chips": p.Bankroll > 0}, "hand %d deals in %s who is seated-in=%v with bankroll %d", h.k, p.PlayerID, p.IsIn, p.Bankroll)
+			smIn := false
+			if sm := pt.VerifSeatManager(m.w.eng); sm != nil {
+				for _, sp := range sm.Seats() {
+					if sp != nil && sp.ID == p.PlayerID {
+						smIn = sp.IsIn
+					}
+				}
+			}
+			c.Viol("C05", "C05.dealt_in_ineligible", map[string]any{"seated_in": p.IsIn, "has_chips": p.Bankroll > 0, "seat_manager_says_seated_in": smIn}, "hand %d deals in %s who is seated-in=%v (seat manager: %v) with bankroll %d", h.k, p.PlayerID, p.IsIn, smIn, p.Bankroll)
 			return
 		}
 		if prev != nil && prev.settled != nil && indexOf(prev.roster, p.PlayerID) >= 0 && elig && !dealt[p.PlayerID] && prev.tainted == "" {
@@ -561,7 +573,8 @@ func (m *tableMon) checkDealtIn(h *handRec, prev *handRec) {
 			seatedLater := known && gcSeated >= 1 // given the seat after positions had been set
 			if prev != nil && prev.k == h.k-1 && !wasIn && (m.everDealt[p.PlayerID] || seatedLater) && !shortDeck && !hu && len(dealt) >= 3 {
 				c.Judged("C05.newcomer_first_hand")
-				if cwBetween(st.CurrentDealerSeat, st.CurrentBBSeat, p.Seat, n) {
+				pst := prev.open.State
+				if cwBetween(st.CurrentDealerSeat, st.CurrentBBSeat, p.Seat, n) && cwBetween(pst.CurrentDealerSeat, pst.CurrentBBSeat, p.Seat, n) && pst.CurrentDealerSeat != pst.CurrentSBSeat {
 					c.Viol("C05", "C05.newcomer_did_not_wait", map[string]any{"returning_player": m.everDealt[p.PlayerID]}, "hand %d (D%d/SB%d/BB%d): %s at seat %d was not dealt into hand %d, sits strictly between button and big blind, but is dealt in", h.k, st.CurrentDealerSeat, st.CurrentSBSeat, st.CurrentBBSeat, p.PlayerID, p.Seat, prev.k)
 					return
 				}
@@ -931,7 +944,10 @@ func (m *tableMon) trackPhase(h *handRec, t *pt.Table, evKey string) {
 		m.collectAnswers(h, ph)
 		if h.tainted == "" {
 			c.Judged("C11.phase_closed")
-			elapsed := now - ph.t0
+			// the engine arms its timer when it handles the request, the monitor sees the request when it is
+			// published; injected slowness (slow subscriber, slow backend holding the engine lock) can
+			// separate the two, so it is credited to the elapsed time
+			elapsed := now - ph.t0 + h.slowMs + m.w.be.SleptMs
 			if elapsed < specResponseTimeoutS*1000 {
 				var missing []string
 				for id := range ph.asked {
@@ -1057,6 +1073,7 @@ func (m *tableMon) checkDeadline(h *handRec, t *pt.Table) {
 		m.closeTurn(h)
 		m.lastTurnKey = tk
 		m.turnAt = t.UpdateAt
+		m.turnStale = m.lastDeadlineSeen
 		m.turnOK = false
 		m.turnOpen = true
 		m.turnDesc = fmt.Sprintf("hand %d round %s player %d (allowed %v, asked at %d)", h.k, gs.Status.Round, cp, p.AllowedActions, t.UpdateAt)
@@ -1073,6 +1090,9 @@ func (m *tableMon) checkDeadline(h *handRec, t *pt.Table) {
 	switch {
 	case st.CurrentActionEndAt == want:
 		m.turnOK = true
+	case st.CurrentActionEndAt == m.turnStale:
+		// the deadline of the previous turn, re-published by a concurrent event before the engine wrote the new one
+		c.Probe("request_published_before_deadline_written")
 	case st.CurrentActionEndAt != 0:
 		c.Viol("C15", "C15.deadline_wrong", nil, "%s: action time %ds, published deadline is %d (expected %d)", m.turnDesc, t.Meta.ActionTime, st.CurrentActionEndAt, want)
 	default:
@@ -1368,6 +1388,9 @@ func irregularRing(t *pt.Table) bool {
 // slowness: injected delay (slow subscriber / slow backend) that the time bounds must allow for.
 func (m *tableMon) slowness(ms int64) {
 	m.extraMs += ms
+	if m.cur != nil {
+		m.cur.slowMs += ms
+	}
 	if m.cur != nil && m.cur.phase != nil && !m.cur.phase.closed {
 		m.cur.phase.allowMs += ms
 	}
